@@ -150,6 +150,7 @@ CHECKS = {
         "assumptions": ["RFC 6902 'remove' of the whole document leaves the empty (void) document"],
         "legs": [
             rapid("random", "TestC09Random", {"checks": 25000, "shards": 4}, {"checks": 250000, "shards": 16, "timeout": 6000}),
+            rapid("patched", "TestC09Patched", {"checks": 15000, "shards": 2}, {"checks": 150000, "shards": 8, "timeout": 6000}),
             rapid("refusal", "TestC09Refusal", {"checks": 10000, "shards": 2}, {"checks": 100000, "shards": 8, "timeout": 6000}),
         ],
     },
